@@ -179,6 +179,7 @@ type seqScenario struct {
 	// is never looked at as a report to upload)
 	Stray       string
 	Zoned       bool // start times carry a non-UTC location
+	TwinFamily  bool // two builds differing in one identity field, one week
 	AgeLimit    bool // the age-limit family (a week ending within minutes of the 21-day limit)
 	FutureReady bool
 }
@@ -219,7 +220,7 @@ func genSeqScenario(r *verifrt.Rand, i int) *seqScenario {
 		builds[k] = genBuild(r)
 	}
 	twin := false
-	if nb > 1 && r.Intn(3) == 0 { // same program, builds differing in one identity field only
+	if nb > 1 && r.Intn(2) == 0 { // same program, builds differing in one identity field only
 		builds[1] = builds[0]
 		switch r.Intn(4) {
 		case 0:
@@ -275,7 +276,7 @@ func genSeqScenario(r *verifrt.Rand, i int) *seqScenario {
 		f.setName(k)
 		s.Files = append(s.Files, f)
 	}
-	if twin && nf >= 2 && i%8 != 0 && i%8 != 4 && r.Intn(2) == 0 {
+	if twin && nf >= 2 && i%8 != 0 && i%8 != 4 && r.Intn(4) != 0 {
 		// the twin builds both have a readable file in the same week
 		a, b := s.Files[0], s.Files[1]
 		a.Kind, b.Kind = "ok", "ok"
@@ -364,6 +365,52 @@ func genSeqScenario(r *verifrt.Rand, i int) *seqScenario {
 		s.Xs = []float64{0.5, 0.5}
 		s.Grow = map[int]int{1: 0}
 		s.PreLocal, s.PreUpload = map[string]string{}, map[string]string{}
+	}
+	if i%20 == 11 {
+		// one tool built for two targets (or with two toolchains, or in two
+		// versions) on one machine: two finished files of one week whose builds differ
+		// in exactly one identity field, under a configuration that approves the
+		// first, the second or both; everything else permits the upload
+		j := i / 20
+		a := verifref.Build{Program: "golang.org/x/tools/gopls", Version: "v1.2.3", GoVersion: "go1.22.1", GOOS: "linux", GOARCH: "amd64"}
+		b := a
+		s.Cfg.GOOS, s.Cfg.GOARCH, s.Cfg.GoVersion = []string{"linux"}, []string{"amd64"}, []string{"go1.22.1"}
+		vers := []string{"v1.2.3"}
+		approve := (j / 4) % 3 // 0: first only, 1: second only, 2: both
+		switch j % 4 {
+		case 0:
+			b.GOARCH = "386"
+			s.Cfg.GOARCH = [][]string{{"amd64"}, {"386"}, {"amd64", "386"}}[approve]
+		case 1:
+			b.GOOS = "darwin"
+			s.Cfg.GOOS = [][]string{{"linux"}, {"darwin"}, {"linux", "darwin"}}[approve]
+		case 2:
+			b.GoVersion = "go1.21.5"
+			s.Cfg.GoVersion = [][]string{{"go1.22.1"}, {"go1.21.5"}, {"go1.22.1", "go1.21.5"}}[approve]
+		default:
+			b.Version = "v0.14.0"
+			vers = [][]string{{"v1.2.3"}, {"v0.14.0"}, {"v1.2.3", "v0.14.0"}}[approve]
+		}
+		s.Cfg.SampleRate = 0
+		s.Cfg.Programs = []*verifref.ProgramConfig{{Name: a.Program, Versions: vers, Counters: []verifref.CounterConfig{{Name: "editor/opens", Rate: 1}, {Name: "flag:{v,x}", Rate: 1}},
+			Stacks: []verifref.CounterConfig{{Name: "crash/crash", Rate: 1, Depth: 8}}}}
+		end := s.Starts[0].UTC().Truncate(24 * time.Hour).Add(-time.Duration(1+r.Intn(6)) * 24 * time.Hour)
+		s.Files = s.Files[:0]
+		for k, bl := range []verifref.Build{a, b} {
+			if (j/12)%2 == 1 {
+				bl = []verifref.Build{b, a}[k] // (which file the directory lists first)
+			}
+			f := &ufile{Build: bl, Kind: "ok", End: end, Begin: end.Add(-time.Duration(2+r.Intn(5)) * 24 * time.Hour)}
+			f.Counts = map[string]uint64{"editor/opens": uint64(1 + r.Intn(9) + 100*k), "flag:v": uint64(2 + k), "crash/crash" + frames: uint64(1 + k), "secret/" + s.Canary: 1}
+			f.setName(k)
+			s.Files = append(s.Files, f)
+		}
+		s.Starts = s.Starts[:1]
+		s.Mode = []string{"on 2010-01-01"}
+		s.Xs = []float64{0.5}
+		s.Grow = map[int]int{}
+		s.PreLocal, s.PreUpload = map[string]string{}, map[string]string{}
+		s.TwinFamily = true
 	}
 	if i%20 == 7 {
 		// the 21-day age limit seen from a zone whose clocks moved by an hour during
@@ -516,7 +563,7 @@ func TestVerifUploadSeq(t *testing.T) {
 		}
 	}
 	cs.c07.Require("stray-json-in-local", "week-reported", "multi-file-sum", "multi-build", "boundary-end==start", "unreadable-untouched", "preexisting-report", "rerun", "grown-file", "empty-only-week")
-	cs.c01.Require("request-checked", "excluded-by-rate", "unlisted-version", "near-miss-dropped", "stack-plain-clash")
+	cs.c01.Require("request-checked", "excluded-by-rate", "unlisted-version", "near-miss-dropped", "stack-plain-clash", "twin-builds-one-week")
 	cs.c02.Require("mode-on-sent", "mode-local", "mode-off", "mode-malformed", "too-old", "asof-blocks", "sample-blocks", "age-limit-in-shifted-zone")
 	cs.c09.Require("end<start:consumed", "end==start:kept", "end>start:kept", "same-day-after-end:consumed")
 	for _, x := range []*verifrt.Result{cs.c07, cs.c01, cs.c02, cs.c09} {
@@ -565,6 +612,9 @@ func runSeqScenario(c *seqChecks, base string, s *seqScenario, rnd *verifrt.Rand
 	}
 	if s.AgeLimit {
 		c.c02.Hit("age-limit-in-shifted-zone")
+	}
+	if s.TwinFamily {
+		c.c01.Hit("twin-builds-one-week")
 	}
 	if s.FutureReady {
 		c.c02.Hit("pending-report-for-tomorrow-utc")
